@@ -29,7 +29,7 @@
     no pool thread is alive and a later submission never runs.
 (c) the REAL `_pool.pool()` team (real limitedWorkerCreator + LockWorker + ThreadWorkers) with a thread
     factory whose threads never run: deterministic, synchronous.  All sequences of grow(1|2) / do /
-    shrink(1|None) / limit +-1 up to depth 5 for limits 1..3; whenever the pool asks the factory for a
+    shrink(1|None) / limit +-1 up to depth 4 (quick) / 5 (thorough) for limits 1..3; whenever the pool asks the factory for a
     thread, the Team's idle + busy count must be below the limit in force
     (`pool-worker-created-at-limit`).  Plus 18 scripted, synchronised scenarios on the real
     ThreadPool(0, m): m gated jobs, wait until all workers are idle, startAWorker() x k and
@@ -64,9 +64,9 @@ ASSUMPTIONS = [
 SHARDS = {"quick": 4, "thorough": 16}
 FLOORS = {"explore_states": 5000, "quiescence_checks": 5000, "quit_quiescence_checks": 1000, "tasks_run_in_exploration": 5000,
           "worker_creations_checked": 2000, "stranded_task_cases": 10, "post_quit_probes": 100,
-          "pools": 40, "pool_tasks_run": 5000, "pool_onresult": 5000, "pool_stops": 40, "gate_phases": 5, "yields_injected": 2000,
-          "pool_tasks_failed_as_planned": 500, "pool_pre_start_tasks": 50, "pool_tasks_raised_baseexception": 500,
-          "pool_reentrant_submissions": 300, "pool_onresult_raised": 300, "pool_second_bursts": 10, "tasks_submitted_from_a_task": 1000,
+          "pools": 40, "pool_tasks_run": 4000, "pool_onresult": 4000, "pool_stops": 40, "gate_phases": 5, "yields_injected": 2000,
+          "pool_tasks_failed_as_planned": 500, "pool_pre_start_tasks": 50, "pool_tasks_raised_baseexception": 400,
+          "pool_reentrant_submissions": 200, "pool_onresult_raised": 200, "pool_second_bursts": 10, "tasks_submitted_from_a_task": 1000,
           "real_creator_cases": 5000, "real_creator_creations_checked": 5000, "scripted_pools": 18, "scripted_limit_checks": 50}
 WATCHDOG_S = {"quick": 900, "thorough": 3000}
 READY = True
@@ -737,13 +737,13 @@ def explore_real_creator(ctx):
     """The REAL `twisted._threads._pool.pool()` (real limitedWorkerCreator, LockWorker coordinator,
     ThreadWorkers) with a thread factory whose threads never run: everything is synchronous and
     deterministic.  Workers handed a task stay busy, grown workers stay idle.  Every sequence of
-    grow/do/shrink/limit-change up to the depth bound is run for limits 1..3; at every thread the
+    grow/do/shrink/limit-change up to the depth bound (4 quick, 5 thorough) is run for limits 1..3; at every thread the
     pool asks for, the Team's own count of workers (idle + busy) must be below the limit in force."""
     import itertools
 
     from twisted._threads import _pool
 
-    depth = 5 if ctx.size(100, 100) == 100 else 4
+    depth = ctx.size(4, 5) if ctx.size(100, 100) == 100 else 4
     n = 0
     for m in (1, 2, 3):
         for d in range(1, depth + 1):
@@ -917,7 +917,7 @@ def run(ctx):
                 if ctx.owns(k):
                     run_scripted_pool(ctx, m, n_start, grow_min)
     codes = pool_codes()
-    for i in ctx.cases(200, 5000):
+    for i in ctx.cases(100, 5000):
         run_pool_case(ctx, i, codes)
         if any("did not return" in r for r in ctx.inconclusive_reasons):
             break  # a wedged pool: do not pile up more threads
